@@ -288,6 +288,7 @@ type World struct {
 	lisS             *MemListener
 	deniedMu         sync.Mutex
 	denied           map[string]bool // the operator's block list (Veto changes it at run time)
+	revoked          string          // a user the operator's handler has stopped knowing (BadCred kind "revoked", one request)
 	lisS2            *MemListener    // second stream listener (client sx)
 	streamMu         sync.Mutex
 	// real mode (Meta.Extra["real"] = "yes", real-time drivers only): the IPv4 datagram listener and its clients
@@ -582,7 +583,10 @@ func NewWorld(meta Meta, seed int64) (*World, error) {
 			if w.gate != nil {
 				w.gate("callout.auth")
 			}
-			if !users[ra.Username] {
+			w.deniedMu.Lock()
+			gone := w.revoked == ra.Username
+			w.deniedMu.Unlock()
+			if !users[ra.Username] || gone {
 				return "", nil, false
 			}
 
@@ -1371,6 +1375,12 @@ func (w *World) do1(a map[string]any, wait func()) (obs []Obs, retry bool, err e
 			return nil, false, err
 		}
 		w.sendFromClient(c, raw)
+		if a["k"] == "revoked" {
+			wait()
+			w.deniedMu.Lock()
+			w.revoked = ""
+			w.deniedMu.Unlock()
+		}
 	case "PeerData":
 		pay := w.payload(a["pay"].(string), w.lenOf(a))
 		w.curPay[a["pay"].(string)] = pay
@@ -1500,6 +1510,13 @@ func (w *World) decodeAtClient(c string, pk Pkt) Obs {
 		}
 		if len(pk.Data) != want || int(binary.BigEndian.Uint16(pk.Data[2:4])) != len(cd.Data) {
 			o["pay"] = fmt.Sprintf("!framing wire=%d data=%d", len(pk.Data), len(cd.Data))
+		}
+		for _, b := range pk.Data[min(4+len(cd.Data), len(pk.Data)):] {
+			if b != 0 { // the padding is zeros: anything else is bytes of something the client was not sent
+				o["pay"] = fmt.Sprintf("!padding % x after %d bytes of data", pk.Data[4+len(cd.Data):], len(cd.Data))
+
+				break
+			}
 		}
 
 		return o
@@ -1779,6 +1796,12 @@ func (w *World) badCred(c, m, k string) ([]byte, error) {
 		presentedRealm = "other.example"
 	case "ghostUser":
 		user, miUser, pw = "ghost", "ghost", "pw-ghost"
+	case "revoked": // everything is right, but the operator's handler does not know the user any more (for this request)
+		w.deniedMu.Lock()
+		w.revoked = user
+		w.deniedMu.Unlock()
+	case "dupNonce": // integrity over a stale nonce; a fresh NONCE is appended behind MESSAGE-INTEGRITY below
+		nonce = w.staleNonce
 	case "ghostEmptyKey": // unknown to the operator's handler, integrity computed with the empty key
 		user, emptyKey = "ghost", true
 	case "wrongPw":
@@ -1834,6 +1857,15 @@ func (w *World) badCred(c, m, k string) ([]byte, error) {
 	}
 	raw := append([]byte{}, msg.Raw...)
 	switch k {
+	case "dupNonce":
+		v := []byte(w.nonce)
+		attr := []byte{0x00, 0x15, byte(len(v) >> 8), byte(len(v))}
+		attr = append(attr, v...)
+		for len(attr)%4 != 0 {
+			attr = append(attr, 0)
+		}
+		raw = append(raw, attr...)
+		binary.BigEndian.PutUint16(raw[2:4], uint16(len(raw)-20)) //nolint:gosec
 	case "flipMI":
 		raw[len(raw)-1] ^= 0x10
 	case "flipBody":
